@@ -22,6 +22,9 @@ use std::process::{Command, Stdio};
 use std::sync::mpsc;
 use std::time::Duration;
 
+#[path = "../transform_expand.rs"]
+mod expand;
+
 fn sym(s: &str) -> Cell {
     Cell::Symbol(s.to_string())
 }
@@ -615,6 +618,54 @@ fn impl_use_vm(vm: &mut Vm, def: &Cell, usef: &Cell) -> String {
     r.unwrap_or_else(|_| "panic".into())
 }
 
+/// the expansion driver: a fresh `Vm` (prelude loaded) evaluates the `define-syntax` forms, then `Vm::transform`
+/// is applied to the form. `bits_out` receives `D` + one bit per definition (1 = evaluated without error).
+fn impl_expand(defs: &[Cell], form: &Cell, bits_out: &mut dyn FnMut(&str)) -> String {
+    let mut vm = Vm::new();
+    let mut bits = String::from("D");
+    for d in defs {
+        let d2 = d.clone();
+        let mut vmr = std::panic::AssertUnwindSafe(&mut vm);
+        let ok = catch(move || vmr.eval(&d2).is_ok()).unwrap_or(false);
+        bits.push(if ok { '1' } else { '0' });
+    }
+    bits_out(&bits);
+    let f = form.clone();
+    let mut vmr = std::panic::AssertUnwindSafe(&mut vm);
+    match catch(move || vmr.transform(&f)) {
+        Err(_) => format!("{} panic", bits),
+        Ok(Ok(c)) => format!("{} ok {}", bits, enc_datum(&c)),
+        Ok(Err(e)) => format!("{} err {}", bits, err_class(&e)),
+    }
+}
+
+/// definitions and form of case `idx` of the stream `expand`
+fn expand_case(g: &mut Gen, idx: u64) -> (Vec<Cell>, Cell) {
+    let mut defs: Vec<Cell> = vec![];
+    let mut user: Vec<String> = vec![];
+    let n = g.rng.below(4);
+    for _ in 0..n {
+        if g.rng.chance(1, 6) {
+            // a random transformer named `m` from the T17.1 generator (may be rejected by try_new)
+            let (d, _) = g.definition();
+            defs.push(d);
+            user.push("m".into());
+        } else {
+            let i = g.rng.below(expand::POOL.len() as u64) as usize;
+            defs.push(expand::parse(expand::POOL[i].1));
+            user.push(expand::POOL[i].0.into());
+        }
+    }
+    let kw_binding = idx % 40 == 7;
+    let looping = idx % 97 == 11;
+    let mut eg = expand::ExGen { rng: &mut g.rng, user, kw_binding, looping };
+    let mut form = eg.expr(0);
+    if !form.is_pair() {
+        form = eg.expr(0);
+    }
+    (defs, form)
+}
+
 /// replace some numeric operands of a use (never the keyword) by forms headed by a macro keyword
 fn macro_operands(u: &Cell, rng: &mut Rng) -> Cell {
     fn walk(c: &Cell, head: bool, rng: &mut Rng) -> Cell {
@@ -731,12 +782,47 @@ fn worker(stream: &str, n: u64, start: u64) {
                 out.flush().unwrap();
                 writeln!(out, "R {}", impl_use_vm(vm.as_mut().unwrap(), &d, &u)).unwrap();
             }
+            "expand" | "expand-corpus" => {
+                let (defs, form) = if stream == "expand-corpus" {
+                    match expand::corpus(idx) {
+                        Some(c) => c,
+                        None => break,
+                    }
+                } else {
+                    expand_case(&mut g, idx)
+                };
+                let mut q = format!("Q tr-expand {}", defs.len());
+                for d in &defs {
+                    q.push(' ');
+                    q.push_str(&enc_datum(d));
+                }
+                q.push(' ');
+                q.push_str(&enc_datum(&form));
+                writeln!(out, "{}", q).unwrap();
+                out.flush().unwrap();
+                let r = impl_expand(&defs, &form, &mut |bits| {
+                    writeln!(out, "B {}", bits).unwrap();
+                    out.flush().unwrap();
+                });
+                writeln!(out, "R {}", r).unwrap();
+            }
             _ => panic!("unknown stream"),
         }
         out.flush().unwrap();
     }
     writeln!(out, "END").unwrap();
     out.flush().unwrap();
+}
+
+/// the spec request that goes with request `q` (`bits`: which definitions of a `tr-expand` case were accepted)
+fn spec_request(q: &str, bits: &Option<String>) -> Option<String> {
+    if q.starts_with("tr-def") {
+        None
+    } else if let Some(rest) = q.strip_prefix("tr-expand") {
+        bits.as_ref().map(|b| format!("spec-tr-expand {}{}", b, rest))
+    } else {
+        Some(format!("spec-tr-use{}", q.strip_prefix("tr-use-vm").or(q.strip_prefix("tr-use")).unwrap_or("")))
+    }
 }
 
 fn supervise(stream: &str, n: u64) {
@@ -777,6 +863,7 @@ fn supervise(stream: &str, n: u64) {
             }
         });
         let mut pending: Option<String> = None;
+        let mut bits: Option<String> = None;
         loop {
             // the worker is idle between cases, so only an outstanding `Q` is under the budget
             let msg = if pending.is_some() { rx.recv_timeout(budget).ok() } else { rx.recv().ok() };
@@ -785,14 +872,16 @@ fn supervise(stream: &str, n: u64) {
                     let _ = child.wait();
                     break 'outer;
                 }
-                Some(l) if l.starts_with("Q ") => pending = Some(l[2..].to_string()),
+                Some(l) if l.starts_with("Q ") => {
+                    pending = Some(l[2..].to_string());
+                    bits = None;
+                }
+                Some(l) if l.starts_with("B ") => bits = Some(l[2..].to_string()),
                 Some(l) if l.starts_with("R ") => {
                     let q = pending.take().expect("R without Q");
-                    let specq = format!("spec-tr-use{}", q.strip_prefix("tr-use-vm").or(q.strip_prefix("tr-use")).unwrap_or(""));
-                    if q.starts_with("tr-def") {
-                        writeln!(out, "{}\t{}", q, &l[2..]).unwrap();
-                    } else {
-                        writeln!(out, "{}\t{}\t{}", q, &l[2..], specq).unwrap();
+                    match spec_request(&q, &bits) {
+                        None => writeln!(out, "{}\t{}", q, &l[2..]).unwrap(),
+                        Some(specq) => writeln!(out, "{}\t{}\t{}", q, &l[2..], specq).unwrap(),
                     }
                     done += 1;
                 }
@@ -803,11 +892,9 @@ fn supervise(stream: &str, n: u64) {
                     let _ = child.wait();
                     match pending.take() {
                         Some(q) => {
-                            let specq = format!("spec-tr-use{}", q.strip_prefix("tr-use-vm").or(q.strip_prefix("tr-use")).unwrap_or(""));
-                            if q.starts_with("tr-def") {
-                                writeln!(out, "{}\thang", q).unwrap();
-                            } else {
-                                writeln!(out, "{}\thang\t{}", q, specq).unwrap();
+                            match spec_request(&q, &bits) {
+                                None => writeln!(out, "{}\thang", q).unwrap(),
+                                Some(specq) => writeln!(out, "{}\thang\t{}", q, specq).unwrap(),
                             }
                             done += 1;
                             start = done;
@@ -832,6 +919,30 @@ fn supervise(stream: &str, n: u64) {
     out.flush().unwrap();
 }
 
+
+/// `transform probe '<forms>'…`: debugging aid — every `define-syntax` form is evaluated, every other
+/// form is shown before and after `Vm::transform`
+fn probe(texts: &[String]) {
+    let mut vm = Vm::new();
+    for t in texts {
+        let mut rest: Option<&str> = Some(t.as_str());
+        while let Some(text) = rest {
+            if text.trim().is_empty() { break }
+            let (cell, r) = match marwood::parse::parse_text(text) { Ok(x) => x, Err(e) => { println!("parse error {:?}", e); break } };
+            rest = r;
+            let is_ds = cell.car().map(|c| *c == sym("define-syntax")).unwrap_or(false);
+            if is_ds {
+                println!("{}  =eval=> {:?}", cell, vm.eval(&cell).map(|c| c.to_string()));
+            } else {
+                let c2 = cell.clone();
+                let mut vmr = std::panic::AssertUnwindSafe(&mut vm);
+                let r = catch(move || vmr.transform(&c2).map(|c| c.to_string()));
+                println!("{}  =transform=> {:?}", cell, r);
+            }
+        }
+    }
+}
+
 fn main() {
     let args: Vec<String> = std::env::args().collect();
     let cmd = args.get(1).map(|s| s.as_str()).unwrap_or("");
@@ -841,12 +952,13 @@ fn main() {
             let start: u64 = args[4].parse().unwrap();
             worker(&args[2], n, start);
         }
-        "defs" | "uses" | "vm" | "corpus" | "vm-corpus" => {
+        "probe" => probe(&args[2..]),
+        "defs" | "uses" | "vm" | "corpus" | "vm-corpus" | "expand" | "expand-corpus" => {
             let n: u64 = args.get(2).and_then(|s| s.parse().ok()).unwrap_or(100);
             supervise(cmd, n);
         }
         _ => {
-            eprintln!("usage: transform defs|uses|vm|corpus|vm-corpus <n>");
+            eprintln!("usage: transform defs|uses|vm|corpus|vm-corpus|expand|expand-corpus <n>");
             std::process::exit(2);
         }
     }
